@@ -318,14 +318,7 @@ func r05_3(c *Ctx, rule string) {
 		for _, call := range c.P.CallsTo(loop, "freevar:changeFn") {
 			arg := call.Common().Args[2]
 			fromClone := c.DerivesFromLocal(arg, func(v ssa.Value) bool { return c.isCallValueTo(v, "types.(*Stat).Clone", "types.(*Stat).CloneVT") }, 10)
-			fromB := bCell != "" && c.DerivesFromLocal(arg, func(v ssa.Value) bool {
-				u, ok := v.(*ssa.UnOp)
-				if !ok || u.Op != token.MUL {
-					return false
-				}
-				fv, ok := u.X.(*ssa.FreeVar)
-				return ok && fv.Name() == bCell
-			}, 10)
+			fromB := bCell != "" && c.DerivesFromLocal(arg, fromLoc(bCell), 10)
 			c.R.Check(!fromClone && fromB, rule, c.siteName(call)+"/stat-as-sent", c.pos(call), "the change carries the source walker's own stat", "the change handed to the writer can carry the filtered clone made for the comparison instead of the stat as sent: digest header and reported metadata are the filtered ones")
 		}
 	}
@@ -509,4 +502,71 @@ func r05_4(c *Ctx, rule string) {
 		c.R.Check(isFieldLoad(a[0], "fsutil.currentPath.path"), rule, c.siteName(call)+"/subject", c.pos(call), "tested against the destination entry's path", "the prefix test is not applied to the destination entry's path")
 	}
 	c.R.Floor(rule, "prefix tests in the diff loop", n, 1)
+	// a directory replaced by a non-directory of any kind (file, symlink,
+	// device, fifo) records the prefix: its stale children arrive as deletes
+	// after the replacement exists, and RemoveAll below a fresh symlink would
+	// resolve through it
+	var sf *ssa.Call
+	for _, call := range c.P.CallsTo(loop, "fsutil.sameFile") {
+		sf, _ = call.(*ssa.Call)
+	}
+	aCell, bCell := walkerCells(c, loop)
+	if sf == nil || aCell == "" || bCell == "" {
+		c.R.Undecided(rule, c.name(loop)+"/dir-to-nondir-records-prefix", c.P.Pos(loop.Pos()), "cannot identify the modify arm or the two entry variables of the diff loop")
+		return
+	}
+	fromCell := fromLoc
+	x := c.explorer(loop)
+	as := map[string]bool{}
+	nA, nB := 0, 0
+	for _, call := range c.P.CallsTo(loop, "types.(*Stat).IsDir", "(io/fs.FileMode).IsDir", "(io/fs.FileInfo).IsDir") {
+		cl, ok := call.(*ssa.Call)
+		if !ok || len(cl.Call.Args) == 0 && !cl.Call.IsInvoke() {
+			continue
+		}
+		recv := cl.Call.Value
+		if !cl.Call.IsInvoke() {
+			recv = cl.Call.Args[0]
+		}
+		switch {
+		case c.DerivesFromLocal(recv, fromCell(aCell), 8) && !c.DerivesFromLocal(recv, fromCell(bCell), 8):
+			as[x.KeyAtEntry(cl)] = true
+			nA++
+		case c.DerivesFromLocal(recv, fromCell(bCell), 10):
+			as[x.KeyAtEntry(cl)] = false
+			nB++
+		}
+	}
+	// the prefix cell: the operand of the prefix test
+	cell := ""
+	for _, call := range c.P.CallsTo(loop, "strings.HasPrefix") {
+		if l := loadLoc(eng.Strip(call.Common().Args[1])); l != "" {
+			cell = l
+		}
+	}
+	isRecord := func(in ssa.Instruction) bool {
+		st, ok := in.(*ssa.Store)
+		if !ok || locOfAddr(st.Addr) != cell {
+			return false
+		}
+		if k, isC := st.Val.(*ssa.Const); isC {
+			_ = k
+			return false
+		}
+		ok2, _ := sepTerminated(c, st.Val, false, 0)
+		return ok2
+	}
+	if cell == "" || nA == 0 {
+		c.R.Undecided(rule, c.name(loop)+"/dir-to-nondir-records-prefix", c.pos(sf), "the prefix variable or the directory test of the destination entry was not found")
+		return
+	}
+	ok, hit, und := c.Precedes(loop, sf, as, isRecord, func(in ssa.Instruction) bool { return c.P.IsCallTo(in, "freevar:changeFn") })
+	switch {
+	case und:
+		c.R.Undecided(rule, c.name(loop)+"/dir-to-nondir-records-prefix", c.pos(sf), "state limit")
+	case !ok:
+		c.R.Fail(rule, c.name(loop)+"/dir-to-nondir-records-prefix", c.pos(hit.Instr), "a destination directory replaced by a non-directory can be reported without recording the removed-directory prefix (the test is narrower than 'not a directory'): deletes of its stale children are applied below the replacement - through it when it is a symlink; path "+eng.BlockTrace(loop, hit.Trace))
+	default:
+		c.R.OK(rule, c.name(loop)+"/dir-to-nondir-records-prefix", c.pos(sf), "whenever the destination entry is a directory and the source entry is not, the prefix is recorded before the change is reported")
+	}
 }
